@@ -142,7 +142,7 @@ def run_doc_check(prop, tier, seed, driver_ok, *, n_quick, n_thorough, profiles,
                   compare=None, classify=None, witnesses=(), rule="", nontrivial=None, assumptions=(), extra_cases=()):
     """profiles: list of (name, profile dict, weight). work(case)->result dict (top-level function).
     oracle(result)->list of failure strings. classify(case)->finding key or None (open findings' domains)."""
-    n = n_quick if tier == "quick" else n_thorough
+    n = {"quick": n_quick, "thorough": n_thorough, "search": 3 * n_quick}[tier]
     cases = []
     # committed witnesses of known findings / past failures run first
     known = []
